@@ -4,12 +4,12 @@
 import json, os, shutil, sys, re
 prop, n, slug = sys.argv[1:4]
 needs = ' '.join(sys.argv[4:])
-src = '/tmp/seed_out/%s/%s' % (prop, n)
+src = os.environ.get('SEED_ROOT', '/tmp/seed_out') + '/%s/%s' % (prop, n)
 dst = '/verif/seeded/%s-%s' % (prop, slug)
 os.makedirs(dst, exist_ok=True)
 for fn in os.listdir(src):
     shutil.copy(os.path.join(src, fn), os.path.join(dst, fn))
-log = '/tmp/seed_out/logs/%s_%s.log' % (prop, n)
+log = os.environ.get("SEED_LOGS", "/tmp/seed_out/logs") + "/%s_%s.log" % (prop, n)
 res = open(log).read().strip().splitlines()[-1] if os.path.exists(log) else ''
 meta = {
   'property': prop,
